@@ -216,6 +216,22 @@ def wrap(schema, ops, storage="mem", rows_every=6, create="create"):
     return lines
 
 
+NOCOMPARE = "#nocompare"
+
+
+def fault_suffix(rng, k, tag):
+    """A track that is in two crates and has ChangeLog rows is removed while the k-th faultable statement
+    (BEGIN, each DELETE / UPDATE, COMMIT) of database::remove_track fails: the call must throw and leave every table
+    untouched.  Judged by the oracles on the real dumps only (the model cannot know how many statements there are)."""
+    t, c1, c2 = "tf%s" % tag, "cf%sa" % tag, "cf%sb" % tag
+    pre = ["mktrack %s %s" % (t, TG.fmt_snapshot({"relative_path": b"fault/%s.mp3" % tag.encode(), "title": b"f"})),
+           "mkroot %s %s" % (c1, hx("F1" + tag)), "mkroot %s %s" % (c2, hx("F2" + tag)),
+           "addtrack %s %s" % (c1, t), "addtrack %s %s" % (c2, t), "set %s title s41" % t]
+    post = [NOCOMPARE, "fault %d" % k, "rmtrack %s" % t, "fault.status", "v2.obs " + " ".join(PROBES), "lib2.raw", "lib2.pragma",
+            "crate.q %s tracks" % c1, "rmtrack %s" % t, "v2.obs " + " ".join(PROBES), "lib2.raw", "lib2.pragma"]
+    return pre, post
+
+
 def schema_of(lines):
     return lines[1].split()[1]
 
@@ -236,7 +252,7 @@ def spec_feed(lines, hout):
                 sp.append("v2.mktrack %s x => %s" % (t[1], h))
                 idx.append(i)
             continue
-        if c in ("update", "set", "snap", "get", "lib2.raw", "lib2.rows", "lib2.pragma", "gettrack"):
+        if c in ("update", "set", "snap", "get", "lib2.raw", "lib2.rows", "lib2.pragma", "gettrack", "fault", "fault.status"):
             continue
         sp.append("%s => %s" % (l, h))
         idx.append(i)
@@ -330,13 +346,19 @@ def judge(results, part, want=("inv", "fk", "spec", "live", "failed", "blobs", "
         prev_raw = None
         last_call = None
         found = False
+        compare = True
         for i, l in enumerate(lines):
+            if l == NOCOMPARE:
+                compare = False
             if l.startswith("#"):
                 continue
             st["evaluations"] += 1
             h, m = impl[i], model[i]
-            if not same(h, m) and first_div is None:
+            if compare and not same(h, m) and first_div is None:
                 first_div = i
+            if l.startswith("fault.status"):
+                k = "fault " + ("fired" if "fired=1" in h else "not-fired")
+                st["outcomes"][k] = st["outcomes"].get(k, 0) + 1
             c = l.split()[0]
             if c in MUTATORS:
                 o = " ".join(h.split()[:2]) if not h.startswith("ok") else "ok"
@@ -413,7 +435,7 @@ def judge(results, part, want=("inv", "fk", "spec", "live", "failed", "blobs", "
 def shrink(v, part, want):
     """Delta-debug a violating script: drop calls while some oracle of `want` still objects."""
     body = [l for l in v["body"] if not l.startswith(("impl(", "model("))]
-    if len(body) < 4:
+    if len(body) < 4 or NOCOMPARE in body:
         return v
     create, schema, storage = body[1].split()[0], body[1].split()[1], body[1].split()[2]
     ops = [l for l in body[2:] if not l.startswith(("v2.obs", "lib2."))]
